@@ -525,7 +525,7 @@ def run_tsig(am, tdir, obs):
             mine = [e for e in errs if e[0].endswith("amv_h/" + o["unit"])]
             # the lines of the unit belonging to this obligation are tagged `// <id>`
             src = open(os.path.join(am, "src", "amv_h", o["unit"])).read().split("\n")
-            tagged = {i + 1 for i, l in enumerate(src) if ("// " + o["id"]) in l}
+            tagged = {i + 1 for i, l in enumerate(src) if re.search(r"//.*\b" + re.escape(o["id"]) + r"\b", l)}
             hit = [e for e in mine if int(e[1]) in tagged]
             other = [e for e in errs if not e[0].endswith("amv_h/" + o["unit"])]
             if not tagged:
